@@ -106,6 +106,13 @@ def cases(tier):
             out.append(("XADDR-EXCESS-ASG %s %d" % (t, k), "fn f()\n{\n\tvar x: %s = %s;\n\tvar y: %s = %s;\n\tvar p: &%s = &x;\n\t&p = %sy;\n}\n" % (t, lit, t, lit, t, "&" * k), None))
             out.append(("XADDR-EXCESS-MEM %s %d" % (t, k), "struct S\n{\n\tm: %s,\n}\nfn g(p: &%s)\n{\n}\nfn f(s: &S)\n{\n\tg(%ss.m);\n}\n" % (t, t, "&" * k), None))
         out.append(("XADDR-LEVELS-OK %s" % t, "fn g(p: &&%s)\n{\n}\nfn f()\n{\n\tvar x: %s = %s;\n\tvar p: &%s = &x;\n\tg(&&p);\n}\n" % (t, t, lit, t), "OK"))
+    for a in ("i32", "u8", "u32"):
+        for b in ("u32", "i8", "i32"):
+            ok = "OK" if a == b else None
+            out.append(("PTRAS %s %s" % (a, b), "fn f()\n{\n\tvar x: %s = 1;\n\tvar q: &%s = &x as &%s;\n}\n" % (a, b, b), ok))
+            out.append(("PTRAS-ARG %s %s" % (a, b), "fn g(p: &%s)\n{\n}\nfn f()\n{\n\tvar x: %s = 1;\n\tg(&x as &%s);\n}\n" % (b, a, b), ok))
+            out.append(("PTRAS-STORE %s %s" % (a, b), "fn f()\n{\n\tvar x: %s = 1;\n\tvar q: &%s = &x as &%s;\n\tq = 2;\n}\n" % (a, b, b), ok))
+            out.append(("ARRAS %s %s" % (a, b), "fn f()\n{\n\tvar x: [2]%s = [1, 2];\n\tvar q: [2]%s = x as [2]%s;\n}\n" % (a, b, b), None))
     # long chains of member accesses through pointers to pointers (each step needs two automatic dereferences:
     # the budget of the typer's autoderef loop was too small from 85 steps on - D61): the type of the whole
     # reference is the type of the last member
